@@ -103,6 +103,10 @@ def run_act(ctx, p):
         ctx.bad('action', dict(sig, kind='ctor_raised', exc=type(e).__name__), 'building %s raised %r' % (cname, e))
         return
     arg = shape_form(P, form)
+    if p.get('layout') and isinstance(arg, np.ndarray):
+        # the same points held as a frozen array, a slice of a bigger array, a Fortran-ordered or reversed-stride array
+        arg = gen.layout(arg, p['layout'])
+        sig['layout'] = p['layout']
     try:
         got = X * arg
     except Exception as e:
@@ -405,6 +409,8 @@ def run(ctx):
         if cname == 'UnitDualQuaternion':
             form = ['list', 'tuple', 'array'][rng.integers(3)]
         p = dict(cls=cname, mats=pose_mats(rng, d, M, rigid), form=form, P=points(rng, d, N))
+        if form in ('array', 'row', 'col', 'array2d') and rng.random() < 0.3:
+            p['layout'] = gen.LAYOUTS[rng.integers(4)]
         drive(RUNNERS, ctx, 'act', p)
         if ctx.ncases % 1999 == 1:
             ctx.sample(dict(kind='act', **p))
